@@ -80,7 +80,7 @@ PROPS = {
         trusted_base=STORE_TB, assumptions=STORE_ASSUME,
     ),
     "C08": dict(
-        props_files=["GoHeader/Props/C08.lean"], gen=[], block=True,
+        props_files=["GoHeader/Props/C08.lean"], gen=["deleteBudget"], block=True,
         canon=store_canon, nontrivial=lambda b: "op delete" in b,
         rule="as C04 with more deletes (35%), ranges touching unflushed headers (batch 64), whole-chain deletes, and a continuation (append, sync, restart) after every history; "
              "distinct = distinct (config, op list); non-trivial = contains a DeleteRange",
